@@ -35,14 +35,19 @@ OPTION_SETS = {
     # wrappers are callable from outside the generated file only with -fnames; the other sets are compile-checked
     'quick': [('c_fnames', ['-c', '-fnames']), ('c_string_fnames', ['-c', '-string', '-fnames']), ('c', ['-c']),
               ('c_promisc_fnames', ['-c', '-promiscuous', '-fnames']), ('py_string_fnames', ['-python', '-string', '-fnames']),
-              ('c_refcount_fnames', ['-c', '-refcount', '-fnames'])],
+              ('c_refcount_fnames', ['-c', '-refcount', '-fnames']),
+              ('c_fnames_uniq_fptrs', ['-c', '-fnames', '-unique-names', '-fptrs'])],
     'thorough': [('c_fnames', ['-c', '-fnames']), ('c_string_fnames', ['-c', '-string', '-fnames']), ('c', ['-c']),
                  ('c_promisc_fnames', ['-c', '-promiscuous', '-fnames']), ('c_string', ['-c', '-string']),
                  ('c_fnames_fptrs', ['-c', '-fnames', '-fptrs']), ('c_fnames_uniq', ['-c', '-fnames', '-unique-names']),
                  ('c_fnames_nodb', ['-c', '-fnames', '-nodb']), ('c_true_names', ['-c', '-true-names']),
                  ('py_string_fnames', ['-python', '-string', '-fnames']), ('py_fnames', ['-python', '-fnames']), ('py', ['-python']),
-                 ('c_refcount_fnames', ['-c', '-refcount', '-fnames']), ('c_refcount', ['-c', '-refcount'])],
+                 ('c_refcount_fnames', ['-c', '-refcount', '-fnames']), ('c_refcount', ['-c', '-refcount']),
+                 ('c_fnames_uniq_fptrs', ['-c', '-fnames', '-unique-names', '-fptrs']), ('c_uniq', ['-c', '-unique-names'])],
 }
+# option sets whose wrappers are the same functions as under c_fnames: in the quick tier only their generated lookup tables
+# (_in_unique_names, _in_fptrs) are checked against the database, not every wrapper again
+TABLES_ONLY_QUICK = {'c_fnames_uniq_fptrs'}
 # option sets that only run on the corpus headers whose //OPTIONS line names them (-refcount changes nothing for a header
 # without reference-counted classes)
 OPT_IN = {'c_refcount_fnames', 'c_refcount'}
@@ -293,6 +298,47 @@ def gen_harness(corpus, optname, wrappers, refs, strmax, argov={}, variants={}, 
     return '\n'.join(out), entries, skipped, missing, unused
 
 
+def gen_tables_harness(gen, opts, wrappers, corpus):
+    """-unique-names / -fptrs: the generated file carries the tables a client uses to get from a unique name to a wrapper's
+    function pointer (_in_unique_names[k] = {unique name, index offset}, _in_fptrs[wrapper index - first index]).  For a
+    SYMBOLIC wrapper number i, the row that bears the unique name the DATABASE records for wrapper i must hold the offset
+    (database wrapper index - 1), and (with -fnames, where the wrapper is nameable) the pointer stored at that offset must
+    be the function the database names for wrapper i.  The harness includes the generated file, so the static tables are
+    the real ones."""
+    uniq, fptrs = '-unique-names' in opts, '-fptrs' in opts
+    ws = [w for w in wrappers if w['kind'] == 'c']
+    n = len(ws)
+    nameable = '-fnames' in opts and all(w['callable_by_name'] for w in ws)
+    out = ['// generated by engine/c01check.py: lookup tables of %s' % os.path.basename(gen), '#define C01_STRMAX 3', '#include "c01_support.h"', '#include "%s"' % gen,
+           '#include "%s.ref.h"   // defines the corpus globals (native replay links)' % corpus, '',
+           'struct VerifExp { char uname[24]; int index; void *fn; };',
+           'static bool verif_streq(const char *a, const char *b) { int k = 0; for (; k < 23 && a[k] && a[k] == b[k]; k++) { } return a[k] == b[k]; }',
+           'extern "C" void h_tables() {',
+           '  static VerifExp ex[%d] = {' % n]
+    for w in ws:
+        out.append('    { "%s", %d, %s },' % (w['unique_name'], w['index'], ('(void *)&' + w['name']) if nameable else '0'))
+    out += ['  };', '  int i = nondet_int(); ASSUME(i >= 0 && i < %d);' % n]
+    if uniq:
+        out += ['  ASSERT(sizeof(_in_unique_names) / sizeof(_in_unique_names[0]) == %d, "C01 unique-name table has one row per wrapper in the database");' % n,
+                '  int found = -1, hits = 0;',
+                '  for (int k = 0; k < %d; k++) if (verif_streq(_in_unique_names[k].name, ex[i].uname)) { found = k; hits++; }' % n,
+                '  ASSERT(hits == 1, "C01 unique-name table bears the unique name of every database wrapper exactly once");',
+                '  if (found < 0) return;',
+                '  int off = _in_unique_names[found].index_offset;',
+                '  ASSERT(off == ex[i].index - 1, "C01 unique-name table row leads to the wrapper the database names (offset = wrapper index - first index)");']
+    else:
+        out += ['  int off = ex[i].index - 1;']
+    if fptrs:
+        out += ['  ASSERT(sizeof(_in_fptrs) / sizeof(_in_fptrs[0]) == %d, "C01 function-pointer table has one slot per wrapper in the database");' % n,
+                '  if (off < 0 || off >= %d) return;' % n]
+        if nameable:
+            out += ['  ASSERT(_in_fptrs[off] == ex[i].fn, "C01 function-pointer slot reached from the database entry is the wrapper the database names");']
+        else:
+            out += ['  ASSERT(_in_fptrs[off] != 0, "C01 function-pointer slot reached from the database entry is filled");']
+    out += ['  WITNESS();', '}', '']
+    return '\n'.join(out)
+
+
 def run_cbmc(unit_c, models, entry, workdir, cap, unwind):
     outp = os.path.join(workdir, entry + '.json')
     cmd = ['cbmc', unit_c] + models + ['--function', entry, '--unwind', str(unwind), '--unwindset',
@@ -451,6 +497,26 @@ def main():
                         violations.append(dict(corpus=tag, what='wrapper signature recorded in the database conflicts with the function the generated code defines: ' + ' | '.join(diag[:4])[:700], cmd=' '.join(cmd)))
                         continue
                 kind = 'python' if '-python' in opts else 'c'
+                if kind == 'c' and ('-unique-names' in opts or '-fptrs' in opts) and '-nodb' not in opts and any(w['kind'] == 'c' for w in db['wrappers']):
+                    tsrc = os.path.join(wd, 'tables_%s.cxx' % tag.replace('.', '_'))
+                    open(tsrc, 'w').write(gen_tables_harness(gen, opts, db['wrappers'], corpus))
+                    empty = os.path.join(wd, 'empty.cxx')
+                    open(empty, 'w').write('// the tables harness includes the generated file itself\n')
+                    try:
+                        t_unit, t_meta = L.build_unit(tag + '.tables', tsrc, ['h_tables'], [os.path.join(VERIF, 'harness/stdinst.cxx')], hflags=incs[:5] + ['-fno-fast-math'], tuflags=incs[:5] + ['-fno-fast-math'])
+                        t_stubs = ['#include <stdint.h>'] + [v for k, v in t_meta['stub_defs'].items() if v and k in t_meta['undefined'] and not k.startswith('nondet_')
+                                                              and k != '__ll2c_global_ctors' and t_meta['undefined_c'].get(k, k) not in model_syms(models)]
+                        t_stubs.append('void verif_at_exit(void) { }')
+                        t_sp = os.path.join(t_meta['dir'], 'stubs.c')
+                        open(t_sp, 'w').write('\n'.join(t_stubs) + '\n')
+                        nw = len([w for w in db['wrappers'] if w['kind'] == 'c'])
+                        jobs.append(dict(tag=tag, e=dict(entry='h_tables', wrapper='(lookup tables)', key='tables(%s)' % optname, function='', params=[], ret='void'),
+                                         unit_c=t_unit, models=models + [t_sp], wd=t_meta['dir'], ndl=nondet_lines(t_unit), hsrc=tsrc, gen=empty, cmd=' '.join(cmd),
+                                         hashes=lower.func_hashes(t_meta['pruned_ll']), unwind=nw + 2))
+                    except Exception as e:
+                        errors.append(dict(corpus=tag, wrapper='(lookup tables)', error=str(e)[-1500:]))
+                    if tier == 'quick' and optname in TABLES_ONLY_QUICK:
+                        continue
                 callable_w = [w for w in db['wrappers'] if w['callable_by_name'] and w['kind'] == kind]
                 if '-nodb' in opts or not callable_w:
                     continue
@@ -489,7 +555,7 @@ def main():
         cap = 150 if tier == 'quick' else 900
 
         def work(j):
-            r = run_cbmc(j['unit_c'], j['models'], j['e']['entry'], j['wd'], cap, 10 if tier == 'quick' else 12)
+            r = run_cbmc(j['unit_c'], j['models'], j['e']['entry'], j['wd'], cap, max(j.get('unwind', 0), 10 if tier == 'quick' else 12))
             return j, r
         with ThreadPoolExecutor(max_workers=a.jobs) as ex:
             results = list(ex.map(work, jobs))
@@ -582,7 +648,7 @@ def main():
                                 explanation='translation validation by solver: wrapper declared from the DATABASE signature vs the direct C++ call of the corpus, on twin symbolic arguments'),
                   assumptions=['claim is per corpus entry (corpus/c01/*.h), not for all headers', 'dconfig.h is an empty shim (this repository does not ship it)',
                                'operator new never fails; clang-14 -O1 lowering, ll2c.py and the models are trusted, guarded by witness assertions and native replay',
-                               'the -python back end and the -fptrs option are outside the claim; -refcount is covered for corpus s7 only'],
+                               '-refcount is covered for corpus s7 only; -unique-names/-fptrs: the generated lookup tables are checked against the database (the module definition that would register them is compiled out of the generator with #if 0)'],
                   wall_s=round(time.time() - t0, 1), violations=len(violations))
         json.dump(ev, open(os.path.join(VERIF, 'evidence', prop + '.json'), 'w'), indent=1)
     except Exception as e:
